@@ -49,6 +49,10 @@ def one(cases, model, rng, tier, d, rep, tmpdir):
     def impl():
         torchtt.save(x, path)
         y = torchtt.load(path)
+        # the file is written again (another object of the same structure, as a checkpoint loop does) and then removed while `y` is alive:
+        # the loaded object owns its data
+        other = torchtt.TT([c * 0 + 7 for c in x.cores])
+        torchtt.save(other, path)
         os.remove(path)
         impl.y = y
         return meta_str(y)
